@@ -336,6 +336,11 @@ wrap_assign(PSET& pointset,
           full_range_bounds.insert(min_value <= y);
           full_range_bounds.insert(y <= max_value);
         }
+        // These dimensions are no longer subject to translation.
+        translations.clear();
+        dimensions_to_be_translated.clear();
+        // The current dimension `x' is given the full range, too.
+        goto set_full_range;
       }
     }
 
